@@ -390,14 +390,36 @@ func (c *spanChecker) report(key, msg string) *failure {
 
 // check verifies the span rules on e and everything below it (children first) and returns the first failure.
 func (c *spanChecker) check(e b6.Expression) *failure {
+	f, _ := c.checkNode(e)
+	return f
+}
+
+// checkNode also says whether the node's span is TAINTED: it is (or is computed from) a node without a position whose
+// failure was stepped over as a known finding.  The parser derives a parent's begin/end from its first/last child, so
+// the consequences of one unpositioned node are not reported again at every ancestor.
+func (c *spanChecker) checkNode(e b6.Expression) (*failure, bool) {
 	kids := exprChildren(e)
+	tainted := false
 	for _, k := range kids {
-		if f := c.check(k); f != nil {
-			return f
+		f, t := c.checkNode(k)
+		if f != nil {
+			return f, false
 		}
+		tainted = tainted || t
 	}
+	if f := c.checkOne(e, kids, tainted); f != nil {
+		return f, false
+	}
+	return nil, tainted || e.End <= e.Begin
+}
+
+func (c *spanChecker) checkOne(e b6.Expression, kids []b6.Expression, tainted bool) *failure {
 	kind := kindOf(e)
 	c.stats["nodes_span_checked"]++
+	if tainted {
+		c.stats["nodes_skipped_above_unpositioned_node"]++
+		return nil
+	}
 	if e.End <= e.Begin {
 		return c.report("span:unpositioned:"+kind, fmt.Sprintf("%s node has begin=%d end=%d in %q", kind, e.Begin, e.End, c.text))
 	}
@@ -444,27 +466,35 @@ func index(toks []token) (map[int]int, map[int]int) {
 
 // sameSpans: the spans of the variant parse are the canonical spans moved to the variant's token offsets
 func (c *spanChecker) sameSpans(p0, pw b6.Expression, tw []token, textw string) *failure {
+	f, _ := c.sameSpansNode(p0, pw, tw, textw)
+	return f
+}
+
+func (c *spanChecker) sameSpansNode(p0, pw b6.Expression, tw []token, textw string) (*failure, bool) {
 	k0, kw := exprChildren(p0), exprChildren(pw)
 	if kindOf(p0) != kindOf(pw) || len(k0) != len(kw) {
-		return c.report("whitespace:structure:"+kindOf(p0), fmt.Sprintf("extra whitespace changed the parse: %q vs %q", c.text, textw))
+		return c.report("whitespace:structure:"+kindOf(p0), fmt.Sprintf("extra whitespace changed the parse: %q vs %q", c.text, textw)), false
 	}
+	tainted := p0.End <= p0.Begin
 	for i := range k0 {
-		if f := c.sameSpans(k0[i], kw[i], tw, textw); f != nil {
-			return f
+		f, t := c.sameSpansNode(k0[i], kw[i], tw, textw)
+		if f != nil {
+			return f, false
 		}
+		tainted = tainted || t
 	}
-	if p0.End <= p0.Begin {
-		return nil
+	if tainted {
+		return nil, true // (above) a node without a position: see checkNode
 	}
 	i, okb := c.begins[p0.Begin]
 	j, oke := c.ends[p0.End]
 	if !okb || !oke {
-		return nil
+		return nil, false
 	}
 	if pw.Begin != tw[i].b || pw.End != tw[j].e {
-		return c.report("span:whitespace-shift:"+kindOf(p0), fmt.Sprintf("%s node: [%d,%d) in %q but [%d,%d) in %q (expected [%d,%d))", kindOf(p0), p0.Begin, p0.End, c.text, pw.Begin, pw.End, textw, tw[i].b, tw[j].e))
+		return c.report("span:whitespace-shift:"+kindOf(p0), fmt.Sprintf("%s node: [%d,%d) in %q but [%d,%d) in %q (expected [%d,%d))", kindOf(p0), p0.Begin, p0.End, c.text, pw.Begin, pw.End, textw, tw[i].b, tw[j].e)), false
 	}
-	return nil
+	return nil, false
 }
 
 // ---------------------------------------------------------------- round trip and classification
